@@ -10,7 +10,6 @@ import (
 	"runtime"
 	"sync"
 
-	"github.com/dim13/cobs"
 	"github.com/simpleiot/simpleiot/client"
 )
 
@@ -105,6 +104,36 @@ func c16ReadAll(wire []byte, cuts []int, maxLen int) (res []c16Result, zeroReads
 }
 
 // judge applies the oracle Pre ++ X ++ Post.  exact: no damage, so X must be empty.
+// refCobsEncode: standard COBS (Cheshire & Baker) with the trailing delimiter, written independently of
+// the code under test: a block of 254 non-zero bytes (code 0xff) implies no zero.
+func refCobsEncode(p []byte) []byte {
+	out := []byte{0}
+	code := 0 // index of the current block's code byte
+	n := byte(1)
+	for i, b := range p {
+		if b == 0 {
+			out[code] = n
+			code = len(out)
+			out = append(out, 0)
+			n = 1
+			continue
+		}
+		out = append(out, b)
+		n++
+		if n == 0xff {
+			out[code] = n
+			if i == len(p)-1 {
+				return append(out, 0)
+			}
+			code = len(out)
+			out = append(out, 0)
+			n = 1
+		}
+	}
+	out[code] = n
+	return append(out, 0)
+}
+
 func c16Judge(frames [][]byte, pre, post int, exact bool, res []c16Result) string {
 	if len(res) < pre+post {
 		return fmt.Sprintf("only %d results for %d frames that must be delivered", len(res), pre+post)
@@ -215,7 +244,7 @@ func init() {
 				real = dev.written
 			} else {
 				for _, f := range frames {
-					real.Write(cobs.Encode(f))
+					real.Write(refCobsEncode(f))
 				}
 			}
 			if !bytes.Equal(real.Bytes(), clean) {
@@ -294,6 +323,13 @@ func init() {
 					lcs = append(lcs, lc{[][]byte{mk(3, z), mk(n, z), mk(5, z)}, 3, 0, true})
 				}
 			}
+			// runs of exactly 254 non-zero bytes (one full 0xff block) before a zero, at the end, twice
+			nz := func(n int) []byte { return bytes.Repeat([]byte{5}, n) }
+			cat := func(parts ...[]byte) []byte { return bytes.Join(parts, nil) }
+			for _, f := range [][]byte{cat(nz(254), []byte{0, 7}), nz(254), cat(nz(254), []byte{0}), cat(nz(253), []byte{0}, nz(254), []byte{0, 9}),
+				cat(nz(508), []byte{0, 1}), cat([]byte{0}, nz(254), []byte{0}), cat(nz(254), []byte{0, 0}, nz(254))} {
+				lcs = append(lcs, lc{[][]byte{mk(3, false), f, mk(5, true)}, 3, 0, true})
+			}
 			// over-long frames: the length guard may report errors; the next frame must survive
 			for _, n := range []int{1100, 2500} {
 				lcs = append(lcs, lc{[][]byte{mk(4, false), mk(n, false), mk(6, true)}, 1, 1, false})
@@ -307,7 +343,25 @@ func init() {
 						if lead {
 							wire = append(wire, 0)
 						}
-						wire = append(wire, cobs.Encode(f)...)
+						wire = append(wire, refCobsEncode(f)...)
+					}
+					if lead {
+						// the real writer must put the same bytes on the wire (standard COBS, as the
+						// device's decoder expects them)
+						dev := &c16Dev{}
+						cw := client.NewCobsWrapper(dev, maxLen)
+						for _, f := range l.frames {
+							cw.Write(f)
+						}
+						if real := dev.written.Bytes(); !bytes.Equal(real, wire) {
+							at := 0
+							for at < len(real) && at < len(wire) && real[at] == wire[at] {
+								at++
+							}
+							res.fail(Failure{Finding: "encoder-long-frame", What: fmt.Sprintf("the writer's output for frames of %d, %d, %d bytes differs from standard COBS at byte %d (%d bytes written, %d expected)",
+								len(l.frames[0]), len(l.frames[1]), len(l.frames[2]), at, len(real), len(wire))})
+							wire = real // the reader is judged on what the writer really sent
+						}
 					}
 					c := &c16Case{Lead: lead, Pre: l.pre, Post: l.post, Dmg: c16Dmg{Kind: "none"}}
 					if !l.exact {
